@@ -181,64 +181,63 @@ fn window(rd: &Value) -> Result<Value, String> {
     })
 }
 
-pub fn replay(args: &Args) -> i32 {
-    let mut rep = Report::new();
-    let mut k: u64 = 0;
-    for b in read_ndjson(args.req("in")) {
-        k += 1;
-        let ideal = &b["ideal"];
-        let ncells = ideal["v"]["cells"].as_array().map_or(0, |a| a.len());
-        // non-trivial: at least one value and at least one repeated or empty element
-        let nontrivial = ncells > 0
-            && b["tokens"].as_array().unwrap().iter().any(|r| {
-                r["rr"].as_u64() != Some(1)
-                    || r["cells"].as_array().unwrap().iter().any(|c| c["n"].as_u64() != Some(1) || c["vt"] == "")
-            });
-        rep.case(&b["tokens"], nontrivial);
-        let table = table_from_tokens(&b["tokens"], "T");
-        // every 5th file carries decoy tables before and after and is deflated
-        let with_decoys = k % 5 == 0;
-        let doc = if with_decoys {
-            OdsDoc { tables: vec![decoy("A"), table, decoy("Z")], ..OdsDoc::default() }
-        } else {
-            OdsDoc::single(table)
-        };
-        let bytes = doc.to_bytes(with_decoys);
-        match observe(bytes.clone(), "T", Some(&ideal["v"]["cells"])) {
-            Err(m) => {
-                let key = if m.starts_with("panic") { "unexplained:panic" } else { "unexplained:error" };
-                rep.fail(key, &b, ideal.clone(), json!({ "error": m }));
-            }
-            Ok(o) => {
-                if !same_range(&ideal["v"], &o.v) {
-                    rep.fail("unexplained:range", &b, ideal["v"].clone(), o.v.clone());
-                } else if !same_range(&ideal["f"], &o.f) {
-                    rep.fail("unexplained:formula", &b, ideal["f"].clone(), o.f.clone());
-                } else if let Some(a) = o.access {
-                    rep.fail("unexplained:get_value", &b, ideal["v"].clone(), json!({ "access": a }));
-                }
-            }
+fn replay_one(rep: &mut Report, k: u64, b: &Value) {
+    let ideal = &b["ideal"];
+    let ncells = ideal["v"]["cells"].as_array().map_or(0, |a| a.len());
+    // non-trivial: at least one value and at least one repeated or empty element
+    let nontrivial = ncells > 0
+        && b["tokens"].as_array().unwrap().iter().any(|r| {
+            r["rr"].as_u64() != Some(1)
+                || r["cells"].as_array().unwrap().iter().any(|c| c["n"].as_u64() != Some(1) || c["vt"] == "")
+        });
+    rep.case(&b["tokens"], nontrivial);
+    let table = table_from_tokens(&b["tokens"], "T");
+    // every 5th file carries decoy tables before and after and is deflated
+    let with_decoys = k % 5 == 0;
+    let doc = if with_decoys {
+        OdsDoc { tables: vec![decoy("A"), table, decoy("Z")], ..OdsDoc::default() }
+    } else {
+        OdsDoc::single(table)
+    };
+    let bytes = doc.to_bytes(with_decoys);
+    match observe(bytes.clone(), "T", Some(&ideal["v"]["cells"])) {
+        Err(m) => {
+            let key = if m.starts_with("panic") { "unexplained:panic" } else { "unexplained:error" };
+            rep.fail(key, b, ideal.clone(), json!({ "error": m }));
         }
-        if with_decoys {
-            for name in ["A", "Z"] {
-                match observe(bytes.clone(), name, None) {
-                    Ok(o) if same_range(&decoy_expected(), &o.v) => {}
-                    Ok(o) => rep.fail("unexplained:neighbour-table", &b, decoy_expected(), o.v),
-                    Err(m) => rep.fail("unexplained:neighbour-table", &b, decoy_expected(), json!({ "error": m })),
-                }
+        Ok(o) => {
+            if !same_range(&ideal["v"], &o.v) {
+                rep.fail("unexplained:range", b, ideal["v"].clone(), o.v.clone());
+            } else if !same_range(&ideal["f"], &o.f) {
+                rep.fail("unexplained:formula", b, ideal["f"].clone(), o.f.clone());
+            } else if let Some(a) = o.access {
+                rep.fail("unexplained:get_value", b, ideal["v"].clone(), json!({ "access": a }));
             }
-        }
-        if let Some(rd) = b.get("rd") {
-            match window(rd) {
-                Ok(w) if same_range(&ideal["v"], &w) => {}
-                Ok(w) => rep.fail("unexplained:get_range-window", &b, ideal["v"].clone(), w),
-                Err(m) => rep.fail("unexplained:get_range-window", &b, ideal["v"].clone(), json!({ "panic": m })),
-            }
-        }
-        if rep.evaluated % 9973 == 1 {
-            rep.sample(json!({"tokens": b["tokens"], "expected": ideal}));
         }
     }
+    if with_decoys {
+        for name in ["A", "Z"] {
+            match observe(bytes.clone(), name, None) {
+                Ok(o) if same_range(&decoy_expected(), &o.v) => {}
+                Ok(o) => rep.fail("unexplained:neighbour-table", b, decoy_expected(), o.v),
+                Err(m) => rep.fail("unexplained:neighbour-table", b, decoy_expected(), json!({ "error": m })),
+            }
+        }
+    }
+    if let Some(rd) = b.get("rd") {
+        match window(rd) {
+            Ok(w) if same_range(&ideal["v"], &w) => {}
+            Ok(w) => rep.fail("unexplained:get_range-window", b, ideal["v"].clone(), w),
+            Err(m) => rep.fail("unexplained:get_range-window", b, ideal["v"].clone(), json!({ "panic": m })),
+        }
+    }
+    if k % 9973 == 1 {
+        rep.sample(json!({"tokens": b["tokens"], "expected": ideal}));
+    }
+}
+
+pub fn replay(args: &Args) -> i32 {
+    let rep = crate::par::par_replay(args.req("in"), replay_one);
     rep.write(args.req("out"));
     0
 }
